@@ -189,3 +189,33 @@ func VerifHarness_C02_par() {
 	}
 	verifObserve("sent", len(lg.sent))
 }
+
+func init() { verifRegister("C02_backpressure", VerifHarness_C02_backpressure) }
+
+// C02_backpressure: the connection writer is slow (outbound channel of capacity 1..2), several messages are queued
+// and flushed in steps: while the session stays logged on every assigned number is transmitted, in order.
+func VerifHarness_C02_backpressure() {
+	r := verifNewSession(false, BeginStringFIX42)
+	lg := &c02Log{r: r}
+	r.s.log = lg
+	capacity := verifConc(ndInt("channel-capacity", 1, 2))
+	out := make(chan []byte, capacity)
+	r.out, r.s.messageOut = out, out
+	N := ndInt("N", verifSeqLo(), 50)
+	r.setCounters(5, N)
+	r.verifLoggedOnState(stInSession, 5)
+	k := verifConc(ndInt("queued", 2, 3+verifTier()))
+	for i := 0; i < k; i++ {
+		r.s.queueForSend(c02App("Q"))
+	}
+	var wire []verifWire
+	for round := 0; round < k+1; round++ {
+		r.s.SendAppMessages(r.s)
+		wire = append(wire, r.drain()...)
+	}
+	verifAssert(len(wire) == k, "backpressure-every-assigned-number-transmitted")
+	for i := range wire {
+		verifAssert(wire[i].seq == N+i, "backpressure-in-increasing-order-without-holes")
+	}
+	verifAssert(len(r.s.toSend) == 0, "backpressure-queue-drained")
+}
